@@ -496,6 +496,12 @@ def _const_texts(deps: frozenset) -> str:
     return " ".join(sorted(d[6:] for d in deps if d.startswith("const:")))
 
 
+def _uninterpreted_tests(sym: S.Sym, path, k: str) -> list[str]:
+    """Atoms on `path` by which the symbolic run recorded a test of the search position `k` (or of arithmetic on it) that it
+    could not relate to 'found' / 'not found': whatever such a test guards is not evidence."""
+    return [n for c in path for n in atoms_of(c) if k in sym.uninterpreted.get(n, ())]
+
+
 def run_diagram_rule(ctx: Ctx, res: Result) -> None:
     repo = ctx.repo
     dr = ctx.public_class("DiagramRule")
@@ -570,7 +576,9 @@ def run_diagram_rule(ctx: Ctx, res: Result) -> None:
             ev = blamed[0]
             o = verdicts[id(ev)][1]
             loc_ = f"{ev.ctx.relpath}:{getattr(ev.node, 'lineno', 0)}"
-            if must(o.path, ev.path):
+            if _uninterpreted_tests(sym, o.path, ev.result.key):
+                problems.append((tag, "?", ""))  # a test of the search result that the model could not interpret guards the verdict: no evidence
+            elif must(o.path, ev.path):
                 problems.append((tag, f"when `{norm(ev.node, 60)}` in {ev.ctx.qualname} does not find {tag}, {describe_outcome(o)} is still reached (the 'not found' outcome of this search is never tested): a diagram without {tag} no longer raises a parsing error", loc_))
             else:
                 problems.append((tag, f"{describe_outcome(o)} is reachable on a path on which the search for {tag} (`{norm(ev.node, 50)}`) does not run in this call (`{show(ev.cond)[:100]}` does not hold): nothing rejects a diagram without {tag} there", loc_))
@@ -589,6 +597,56 @@ def run_diagram_rule(ctx: Ctx, res: Result) -> None:
         raised = sorted({x.exc.split(".")[-1] for x in rejections(sym) for e_ in evs if e_.result.kind != "index" and sat_path(x.path, absent(e_))})
         res.add("C13.R2", construct, True, f"a diagram without {START_TAG} / {END_TAG} ({', '.join('`' + norm(e_.node, 40) + '`' for e_ in evs)} finds nothing) raises {', '.join(raised) or 'the error of the search itself'} and reaches no verdict", where(aa, aa.node), kind="dominance")
     _tag_order(sym, res, dr, aa, tagged, bad)
+    _end_relative_bounds(sym, res, dr, aa, tagged, bad)
+
+
+def _position_lower_bound(path, pos: Opq) -> int:
+    """Smallest value the search position `pos` can have under `path` (as far as the path says): -1 = 'not found' possible."""
+    import re
+
+    lb = 0 if pos.kind == "index" or implies_path(path, f_not(atom(f"notfound({pos.key})"))) else -1
+    if lb == 0:
+        for c in path:
+            for n in atoms_of(c):
+                m = re.fullmatch(re.escape(pos.key) + r" Gt (\d+)", n)
+                if m and int(m.group(1)) + 1 > lb and implies_path(path, atom(n)):
+                    lb = int(m.group(1)) + 1
+    return lb
+
+
+def _end_relative_bounds(sym: S.Sym, res: Result, dr: ClassInfo, aa: FuncInfo, tagged: list[S.Event], bad: list[S.Outcome]) -> None:
+    """`text.rfind(start, 0, end - 1)`: a negative upper bound counts from the END of the text.  When the bound is computed
+    from an earlier search position that may be too small (not found = -1, or found at an index below the displacement) the
+    search looks behind that position: a start tag behind the only end tag is 'found' and the file gets a verdict."""
+    construct = f"{dr.module.relpath}::DiagramRule.assert_applies::bounded tag search"
+    for b in tagged:
+        if not (b.result.kind in ("find", "index") and b.name in S.STR_SEARCH and len(b.args) == 3 and isinstance(b.args[2], Opq)):
+            continue
+        hi = b.args[2]
+        pos, d = (hi, 0) if hi.kind in ("find", "index") else (hi.meta if hi.kind == "offset" else (None, 0))
+        if pos is None or not any(t in _const_texts(pos.deps) for t in (START_TAG, END_TAG)):
+            continue
+        lb = _position_lower_bound(b.path, pos)
+        if lb + d >= 0:
+            continue
+        for o in bad:
+            if not must(o.path, b.path):
+                continue
+            names = [n for c in o.path for n in atoms_of(c)]
+            if any(pos.key in sym.uninterpreted.get(n, ()) or b.result.key in sym.uninterpreted.get(n, ()) for n in names):
+                continue  # a later test relates the result to the earlier position (or could not be interpreted): no evidence
+            if sat_path(o.path, atom(f"notfound({pos.key})")) and pos.kind == "find":
+                continue  # the missing tag itself still reaches the verdict: reported by 'missing tags raise'
+            res.add(
+                "C13.R2",
+                construct,
+                False,
+                f"the upper bound `{norm(b.node.args[2], 40)}` of `{norm(b.node, 60)}` in {b.ctx.qualname} is negative when the earlier tag is found at index {lb}{' or not at all' if lb < 0 else ''}: python then counts the bound from the end of the text, the search looks behind the earlier position, and a file whose {START_TAG} only follows its {END_TAG} (no tagged body) reaches {describe_outcome(o)} instead of raising a parsing error",
+                f"{b.ctx.relpath}:{getattr(b.node, 'lineno', 0)}",
+                kind="dominance",
+            )
+            return
+    res.add("C13.R2", construct, True, "no tag search is bounded by a position that can make the bound negative (end-relative)", where(aa, aa.node), nontrivial=False, kind="dominance")
 
 
 def _tag_order(sym: S.Sym, res: Result, dr: ClassInfo, aa: FuncInfo, tagged: list[S.Event], bad: list[S.Outcome]) -> None:
